@@ -43,7 +43,8 @@ def main():
         # or constant feature (the statement's corollaries must hold on this path too)
         special = lambda c_: c_['y'] == c_['x'] or len(set(c_['y'])) in (1, len(c_['y']))
         sub = [i for i in range(len(cases)) if special(cases[i]) or rng.random() < (0.1 if tier == 'quick' else 0.3)]
-        got_name, crashes_n = MC.real_eval('numba_mi', [[cases[i]['y'], cases[i]['x'], 'MI-numba-randomized', 1.0] for i in sub])
+        # every second one as the (n, 1) column that generate_data_for_ranking hands over when --reference_model_JSON is set
+        got_name, crashes_n = MC.real_eval('numba_mi', [[cases[i]['y'], cases[i]['x'], 'MI-numba-randomized', 1.0, 'col' if k_ % 2 else 'flat'] for k_, i in enumerate(sub)])
         nontriv = 0
         for c, s in zip(cases, got):
             if s is None:
